@@ -61,6 +61,9 @@ fn check(obs: &Obs, rep: &mut Report, d: &dyn Fn() -> J) {
             ));
             return;
         }
+        if matches!(r.n, 4096 | 8192 | 16384 | 32768) {
+            rep.counters.inc("reads_filling_the_offered_buffer");
+        }
         if handed > 0 && obs.ends[handed - 1].0 == r.pos {
             rep.counters.inc("reads_at_command_boundary");
         }
@@ -76,6 +79,28 @@ pub fn run(ctx: &Ctx) -> Report {
     let n = if ctx.miri { 6 } else { ctx.n(6000, 300_000) };
     let r = par_cases(ctx, "C12", "arrival", n, |rng, i, rep| {
         let (mut case, _) = rich_case(rng, if ctx.miri { 3 } else { 12 }, false);
+        // long commands, so that the input crosses the server's read-buffer sizes (4096, 8192, ...)
+        // at every alignment: a read that exactly fills the buffer must not be mistaken for "more to come"
+        if !ctx.miri && rng.chance(1, 3) {
+            let (hs_len, _) = case.input();
+            let mut total = hs_len.len();
+            for _ in 0..rng.range(1, 3) {
+                let target = *rng.pick(&[4096usize, 8192, 16384, 4096, 8192]);
+                let want = match rng.below(4) {
+                    0 => target.saturating_sub(total + 5),          // this command ends exactly on the buffer size
+                    1 => target.saturating_sub(total + 5) + rng.range(1, 9) as usize,
+                    2 => target.saturating_sub(total + 5).saturating_sub(rng.range(1, 9) as usize),
+                    _ => rng.range(1, 20_000) as usize,
+                }
+                .max(1);
+                let mut text = Vec::new();
+                stream_fill(&mut text, rng.next(), 0, want, true);
+                case.cmds.push(Cmd::query(&text));
+                case.scripts.push(Script::Q(QProg::completed(1, 1)));
+                total += want + 5;
+                rep.counters.inc("long_commands_added");
+            }
+        }
         if rng.chance(1, 10) {
             case.cmds.push(Cmd::quit());
         }
@@ -128,6 +153,8 @@ pub fn run(ctx: &Ctx) -> Report {
         rep.require("deadlock_checks_armed", 10);
         rep.require("reads_delivering_several_commands", 10);
         rep.require("reads_at_command_boundary", 10);
+        rep.require("long_commands_added", 100);
+        rep.require("reads_filling_the_offered_buffer", 10);
     }
     let _ = Kind::Ping;
     rep
